@@ -824,7 +824,21 @@ func translateImpl(e *env, fc FileCfg, fd *ast.FuncDecl) (string, error) {
 	}
 	t := &tr{p: p, f: p.ffile[name], prefix: fc.Prefix, goName: name, fd: myfd}
 	pendingStructs = nil
-	src, err := t.function()
+	var src string
+	if spec, isFrag := fc.Types[name]; isFrag {
+		// fragment mode: the k-th time this function is listed, the k-th fragment of the spec
+		// (separated by ";;") is translated instead of the whole function
+		key := path + "\x00" + name
+		specs := strings.Split(spec, ";;")
+		k := fragCount[key]
+		fragCount[key]++
+		if k >= len(specs) {
+			return "", fmt.Errorf("function %s is listed %d times but has only %d fragment specifications", name, k+1, len(specs))
+		}
+		src, err = t.fragment(strings.TrimSpace(specs[k]))
+	} else {
+		src, err = t.function()
+	}
 	if err != nil {
 		pos := ""
 		if t.errPos.IsValid() {
@@ -840,6 +854,8 @@ func translateImpl(e *env, fc FileCfg, fd *ast.FuncDecl) (string, error) {
 	sb.WriteString(src)
 	return sb.String(), nil
 }
+
+var fragCount = map[string]int{}
 
 var leanReserved = map[string]bool{}
 
